@@ -57,7 +57,7 @@ CLAIMS = {
         "by PrimaiteGame.from_config, unmodified / misspelt at a depth / truncated, under every node power state and "
         "every service/application operating state: a request that does not reach its handler answers unreachable/"
         "failure and leaves Simulation.describe_state() bit-identical and sends no frame; (actions) every entry of a "
-        "generated action map is never 'unreachable' when its components exist, never reaches a handler when they do not; with a file or a whole folder deleted earlier in the episode, every request and action that still addresses it (other than restoring exactly it, or creation) is not answered success and changes nothing; (service gate) terminal requests of a node whose own terminal is in any non-RUNNING service state, after a history of successful requests, are not answered success and never reach the target; (run-time routes) after an application was installed and uninstalled through the request API the node's request tree is what it was before, and every path that existed only in between is answered unreachable and changes nothing; the same live-tree sweep on a firewall and on a wireless router.",
+        "generated action map is never 'unreachable' when its components exist, never reaches a handler when they do not; with a file or a whole folder deleted earlier in the episode, every request and action that still addresses it (other than restoring exactly it, or creation) is not answered success and changes nothing; (service gate) terminal requests of a node whose own terminal is in any non-RUNNING service state, after a history of successful requests, are not answered success and never reach the target; (run-time routes) after an application was installed and uninstalled through the request API the node's request tree is what it was before, and every path that existed only in between is answered unreachable and changes nothing; the same live-tree sweep on a firewall and on a wireless router; files that come into being during the episode (create request with / without force, forced re-creation of a deleted name, copy_file) are addressed by requests that act on exactly that file.",
         "note": "Bounds: one host of a 4-node (quick) / two topologies (thorough) scenario; leaves with structured "
         "payload arguments (user/session/terminal/nmap/ACL requests) are exercised through the action map only. Trusted: "
         "CrossHair/z3, describe_state() as the state observation, the leaf-wrapping recorder.",
@@ -123,7 +123,7 @@ CLAIMS = {
         "integer (every receiving interface and routing hop lowers it, nothing is handed on with TTL < 1, large TTL is "
         "delivered); ping between every ordered host pair under a solver-chosen toggle (interface down, node off, "
         "ACL deny, switch off) agrees with an independent reachability model and is never handed to a third host's "
-        "software; an interface hands a frame to its node only if it is addressed to it; on a LAN with two routers every unicast frame a host emits for an off-subnet address is addressed to its configured default gateway in every ARP-cache state (0-2 warm-up rounds, either side first), so an exchange the gateway refuses does not complete; the same reachability comparison on a generated firewall-with-DMZ scenario (12 ordered pairs, 13 toggles incl. ICMP denied in each of the six lists) and on the shipped wireless-WAN scenario (two wireless routers; access point down, router off, different frequencies, ACL deny); route tables declared in a scenario (Router.from_config) with fractional, equal and near-equal metrics in either order select the route of lowest declared metric.",
+        "software; an interface hands a frame to its node only if it is addressed to it; on a LAN with two routers every unicast frame a host emits for an off-subnet address is addressed to its configured default gateway in every ARP-cache state (0-2 warm-up rounds, either side first), so an exchange the gateway refuses does not complete; the same reachability comparison on a generated firewall-with-DMZ scenario (12 ordered pairs, 13 toggles incl. ICMP denied in each of the six lists) and on the shipped wireless-WAN scenario (two wireless routers; access point down, router off, different frequencies, ACL deny); route tables declared in a scenario (Router.from_config) with fractional, equal and near-equal metrics in either order select the route of lowest declared metric; after stray packets for an unused address have bounced between a firewall and its upstream router until their TTL ran out, the permitted exchanges between the real hosts still succeed.",
         "note": "Bounds: N=3 (quick) / 4 (thorough) routes; non-contiguous masks excluded (stdlib raises); TTL -1..70; "
         "3 hosts, 9 toggles, cold/warm ARP. Termination is argued from the TTL measure (strictly decreasing, checked), "
         "not run.  Trusted: CrossHair/z3, the ipaddress BV model (validated "
